@@ -1,7 +1,7 @@
 #!/bin/bash
 # usage: tools/importseed.sh <ID> [name]  — confirm a sub-agent's seeded change in its scratch worktree
 # (/tmp/wt/<ID>), then store it as /verif/seeded/<name>/ (patch.diff, demo, NOTES.md, meta.json)
-ID=$1; NAME=${2:-$ID}; W=/tmp/wt/$ID; S=$W/SEEDED; D=/verif/seeded/$NAME
+ID=$1; NAME=${2:-$ID}; W=${3:-/tmp/wt}/$ID; S=$W/SEEDED; D=/verif/seeded/$NAME
 [ -f $S/patch.diff ] || { echo "no patch"; exit 1; }
 cd $W || exit 1
 rm -f tests/seeded_demo*.rs
@@ -28,7 +28,7 @@ python3 - "$ID" "$NAME" "$b1" "$b2" "$suite" "$with" "$without" <<'PY'
 import json,sys
 i,name,b1,b2,suite,w,wo=sys.argv[1:8]
 json.dump({"property":i,"name":name,"builds":{"default":b1=="0","verif":b2=="0"},"existing_suite_with_patch":suite,
- "demo_with_patch":w,"demo_without_patch":wo,"needs":"see NOTES.md","confirmed_in":"scratch worktree /tmp/wt/"+i+" (removed afterwards)"},
+ "demo_with_patch":w,"demo_without_patch":wo,"needs":"see NOTES.md","confirmed_in":"a scratch git worktree of /repo under /tmp (removed afterwards)"},
  open(f"/verif/seeded/{name}/meta.json","w"),indent=1)
 PY
 echo "stored in $D"
